@@ -189,7 +189,11 @@ class ElementProxy(Sequence):
         self.element_list.remove(self.list[index])
 
     def __delattr__(self, name):
-        delattr(self.list[0], name)
+        try:
+            element = self.list[0]
+        except IndexError:  # there is no such child: nothing below it can be deleted
+            raise ChildNotFound(name)
+        delattr(element, name)
 
     def __repr__(self):
         return repr(self.list)
